@@ -46,16 +46,28 @@ Definition diag_eqb (a b : diag) : bool :=
 Record case := mkCase {
   c_runs : list run;
   c_merged : option (list diag);        (* what mergeRuns returned (in-process cases) *)
-  c_obs : list (obs * list view)        (* what printDiagnostics printed, per kind of observation *)
+  c_obs : list (obs * list view);       (* what printDiagnostics printed, per kind of observation *)
+  c_obs_checked : option (list (list string))  (* CheckedFiles of the real lintResult of every run (runs of the real linter);
+                                                  the runs in c_runs then carry the EXPECTED checked files, checked_of *)
 }.
 
-Inductive diffkind := DMerged | DPrinted (o : obs).
+Inductive diffkind := DMerged | DPrinted (o : obs) | DChecked.
 
 (* the PROPERTY evaluated on the implementation's observable behaviour (no generated table involved
    except the numeric values of the two strategies) *)
 Definition spec_problems (c : case) : list diag := spec_merge gen_merge_any gen_merge_all (c_runs c).
 Definition spec_views (c : case) : list view := map view_of_entry (spec_group (spec_problems c)).
+Definition set_eqb (a b : list string) : bool :=
+  forallb (fun x => mem_string x b) a && forallb (fun x => mem_string x a) b.
+Fixpoint all2 {A B} (f : A -> B -> bool) (l1 : list A) (l2 : list B) : bool :=
+  match l1, l2 with [], [] => true | x :: r1, y :: r2 => f x y && all2 f r1 r2 | _, _ => false end.
+Definition checked_diff (c : case) : list diffkind :=
+  match c_obs_checked c with
+  | Some o => if all2 set_eqb (map r_checked (c_runs c)) o then [] else [DChecked]
+  | None => []
+  end.
 Definition case_violation (c : case) : list diffkind :=
+  checked_diff c ++
   (match c_merged c with
    | Some m => if mset_eqb diag_eqb m (spec_problems c) then [] else [DMerged]
    | None => []
